@@ -36,7 +36,7 @@ def comp(rng, depth, names):
     def add(s, v, opt=None, name=None):
         fields.append({"name": name or fresh(), "s": s, "opt": opt or {"k": "none"}})
         vals.append(v)
-    pattern = rng.choice(["plain", "sized_blob", "skip", "sized_comp", "sized_arr", "plain", "double_size", "bitmap_like"])
+    pattern = rng.choice(["plain", "sized_blob", "skip", "sized_comp", "sized_arr", "plain", "double_size", "bitmap_like", "chained_skip", "backward_skip"])
     for _ in range(rng.randint(0, 2)):
         add(*leaf(rng))
     if pattern == "sized_blob":
@@ -77,6 +77,29 @@ def comp(rng, depth, names):
         add({"t": "u16", "e": "le"}, (len(v) + 2) if present else -1, {"k": "size", "target": t, "add": 0})
         add({"t": "u16", "e": "le"}, -1 if present else 0, {"k": "size", "target": t, "add": 0}, name=hname)
         add(s, v, name=t)
+    elif pattern == "chained_skip":
+        # a field that may be skipped carries a skip option itself: when it is skipped its option does not apply
+        # (writing, measuring and reading walk the fields in order)
+        t2, t3 = fresh(), fresh()
+        m1, m2 = rng.choice([1, 2, 0x80]), rng.choice([1, 4, 0x10])
+        p2 = rng.random() < 0.5
+        f1 = rng.choice([x for x in range(256) if bool(x & m1) == p2])
+        add({"t": "u8"}, f1, {"k": "skip", "target": t2, "mask": m1})
+        if p2:
+            p3 = rng.random() < 0.5
+            f2 = rng.choice([x for x in range(256) if bool(x & m2) == p3])
+        else:
+            p3, f2 = True, 0            # skipped: keeps its default 0, which must NOT switch the third field off
+        add({"t": "u8"}, f2, {"k": "skip", "target": t3, "mask": m2}, name=t2)
+        s3, v3 = leaf(rng, False)
+        add(s3, v3 if p3 else default(s3), name=t3)
+    elif pattern == "backward_skip":
+        # a skip option naming a field that stands BEFORE its owner has no effect
+        t = fresh()
+        s0, v0 = leaf(rng, False)
+        add(s0, v0, name=t)
+        mask = rng.choice([1, 0x40])
+        add({"t": "u8"}, rng.randrange(256), {"k": "skip", "target": t, "mask": mask})
     elif pattern == "skip":
         t = fresh()
         mask = rng.choice([1, 2, 0x10, 0x80])
